@@ -7,7 +7,9 @@ swap / insert each symbol at each position) of a corpus of valid programs;
 type in every position (error class checked)."""
 import itertools
 import json
+import os
 import signal
+import time
 import traceback
 from datetime import datetime, timedelta, timezone
 
@@ -47,8 +49,54 @@ def _alarm(signum, frame):
     raise Timeout()
 
 
+_PROGRESS = {}
+
+
+def _progress(text):
+    """note (time, text) in a per-process mmap so that the parent can name the text a worker is stuck
+    on: a signal handler cannot interrupt C code such as a backtracking regular expression"""
+    import mmap
+    import os
+    import struct
+
+    pid = os.getpid()
+    m = _PROGRESS.get(pid)
+    if m is None:
+        path = os.path.join(_G["ctx"].scratch, f"c17-progress-{pid}")
+        with open(path, "wb") as f:
+            f.write(b"\0" * 8192)
+        fd = os.open(path, os.O_RDWR)
+        m = mmap.mmap(fd, 8192)
+        _PROGRESS.clear()
+        _PROGRESS[pid] = m
+    b = text.encode("utf-8", "replace")[:8000]
+    m[0:12] = struct.pack("<dI", time.time(), len(b))
+    m[12 : 12 + len(b)] = b
+
+
+def stuck_texts(scratch, older_than):
+    import glob
+    import struct
+
+    out = []
+    now = time.time()
+    for path in glob.glob(os.path.join(scratch, "c17-progress-*")):
+        pid = int(path.rsplit("-", 1)[1])
+        try:
+            os.kill(pid, 0)
+        except OSError:
+            continue
+        with open(path, "rb") as f:
+            raw = f.read(8192)
+        t, n = struct.unpack("<dI", raw[:12])
+        if t and now - t > older_than:
+            out.append((raw[12 : 12 + n].decode("utf-8", "replace"), now - t))
+    return out
+
+
 def run_text(text, ds):
     """-> (kind, detail) kind in value | Parse | Interpret | Function | Query | deep | other | timeout"""
+    _progress(text)
     signal.setitimer(signal.ITIMER_REAL, 5.0)
     try:
         query2.query("q", text, START, END, ds)
@@ -248,7 +296,15 @@ def _unit_resolution(names):
             record(u, text, kind, det, "resolution")
             if kind not in (want, "other", "timeout"):
                 u.violation(f"query:wrong-error-class:{want}-expected-got-{kind}", f"{text!r}: expected a {want} error, got {kind}", {"text": text, "part": "resolution", "want": want}, size=len(text))
-    for text in ('RETURN = query_bucket("nope");', 'RETURN = query_bucket_eventcount("nope");', 'RETURN = find_bucket("nope");'):
+    for text in (
+        'RETURN = query_bucket("nope");',
+        'RETURN = query_bucket_eventcount("nope");',
+        'RETURN = find_bucket("nope");',
+        'RETURN = find_bucket("nope", "host1");',
+        'RETURN = find_bucket("b1", "no-such-host");',  # id matches, hostname does not: still "no such bucket"
+        'RETURN = find_bucket("b", "no-such-host");',
+        'RETURN = query_bucket(find_bucket("b2", "host1"));',
+    ):
         kind, det = run_text(text, ds)
         record(u, text, kind, det, "resolution")
         if kind not in ("Function", "other", "timeout"):
@@ -289,8 +345,33 @@ def run(ctx):
     for ch in chunked(names, len(names)):
         units.append(("r", ch))
     agg = Agg()
-    for r in ctx.pmap(_dispatch, units, chunksize=4):
-        agg.add(r)
+    # own pool loop (instead of ctx.pmap): if no unit finishes for a long time, some worker is stuck
+    # inside C code that the 5 s alarm cannot interrupt; name the text from its progress record
+    import multiprocessing as mp
+
+    mpctx = mp.get_context("fork")
+    pool = mpctx.Pool(ctx.workers)
+    it = pool.imap_unordered(_dispatch, units)  # chunksize 1: the iterator then supports next(timeout)
+    done = 0
+    try:
+        while True:
+            try:
+                r = it.next(timeout=90)
+            except StopIteration:
+                break
+            except mp.TimeoutError:
+                st = stuck_texts(ctx.scratch, 30)
+                if not st:
+                    continue
+                for text, age in st[:3]:
+                    agg.violations.append({"key": "query:does-not-terminate", "what": f"text {text[:200]!r} has been running for {age:.0f} s (not interruptible by the 5 s alarm)", "case": {"text": text, "part": "hang"}, "size": len(text), "count": 1})
+                agg.exhaustive = False
+                agg.caps.append("exploration stopped after a non-terminating query was found")
+                break
+            agg.add(r)
+            done += 1
+    finally:
+        pool.terminate()
     agg.extra["corpus_programs"] = len(texts)
     agg.extra["deep_data_shape_errors_not_flagged"] = {k[5:]: v for k, v in agg.hist.items() if k.startswith("deep_")}
     ctx.selfcheck(agg.hist.get("outcome_value", 0) > 0 and agg.hist.get("outcome_Parse", 0) > 0 and agg.hist.get("outcome_Interpret", 0) > 0 and agg.hist.get("outcome_Function", 0) > 0, "vacuous: not all outcome classes were seen")
@@ -300,6 +381,16 @@ def run(ctx):
 def run_case(ctx, case):
     _cfg(ctx)
     signal.signal(signal.SIGALRM, _alarm)
+    if case.get("part") == "hang":
+        import multiprocessing as mp
+
+        p = mp.get_context("fork").Process(target=run_text, args=(case["text"], _G["ds"]))
+        p.start()
+        p.join(20)
+        hung = p.is_alive()
+        if hung:
+            p.kill()
+        return {"text": case["text"], "outcome": "still running after 20 s" if hung else "finished", "violations": [["does-not-terminate", "20 s"]] if hung else []}
     kind, det = run_text(case["text"], _G["ds"])
     bad = kind in ("other", "timeout") or (case.get("want") and kind != case["want"])
     return {"text": case["text"], "outcome": kind, "detail": det, "violations": [[kind, det]] if bad else []}
